@@ -328,7 +328,9 @@ func (p *BinaryProtocol) WriteList(desc *proto.TypeDescriptor, val interface{}, 
 	NeedMessageLen := true
 	// packed List bytes format: [tag][length][(L)V][value][value]...
 	if desc.IsPacked() && len(vs) > 0 {
-		p.AppendTag(fieldId, proto.BytesType)
+		if err := p.AppendTag(fieldId, proto.BytesType); err != nil {
+			return err
+		}
 		var pos int
 		p.Buf, pos = AppendSpeculativeLength(p.Buf)
 		for _, v := range vs {
@@ -380,38 +382,68 @@ func (p *BinaryProtocol) WriteMap(desc *proto.TypeDescriptor, val interface{}, c
 	NeedMessageLen := true
 	if vs != nil {
 		for k, v := range vs {
-			p.AppendTag(baseId, proto.BytesType)
+			if err := p.AppendTag(baseId, proto.BytesType); err != nil {
+				return err
+			}
 			var pos int
 			p.Buf, pos = AppendSpeculativeLength(p.Buf)
-			p.AppendTag(1, MapKey.WireType())
-			p.WriteString(k)
-			p.AppendTag(2, MapValue.WireType())
-			p.WriteBaseTypeWithDesc(MapValue, v, cast, NeedMessageLen, disallowUnknown, useFieldName)
+			if err := p.AppendTag(1, MapKey.WireType()); err != nil {
+				return err
+			}
+			if err := p.WriteString(k); err != nil {
+				return err
+			}
+			if err := p.AppendTag(2, MapValue.WireType()); err != nil {
+				return err
+			}
+			if err := p.WriteBaseTypeWithDesc(MapValue, v, cast, NeedMessageLen, disallowUnknown, useFieldName); err != nil {
+				return err
+			}
 			p.Buf = FinishSpeculativeLength(p.Buf, pos)
 		}
 	} else if vs2 != nil {
 		for k, v := range vs2 {
-			p.AppendTag(baseId, proto.BytesType)
+			if err := p.AppendTag(baseId, proto.BytesType); err != nil {
+				return err
+			}
 			var pos int
 			p.Buf, pos = AppendSpeculativeLength(p.Buf)
-			p.AppendTag(1, MapKey.WireType())
+			if err := p.AppendTag(1, MapKey.WireType()); err != nil {
+				return err
+			}
 			// notice: may have problem, when k is sfixed64/fixed64 or sfixed32/fixed32 there is no need to use varint
 			// we had better add more code to judge the type of k if write fast
 			// p.WriteInt64(int64(k))
-			p.WriteBaseTypeWithDesc(MapKey, k, NeedMessageLen, cast, disallowUnknown, useFieldName) // the gerneral way
-			p.AppendTag(2, MapValue.WireType())
-			p.WriteBaseTypeWithDesc(MapValue, v, NeedMessageLen, cast, disallowUnknown, useFieldName)
+			if err := p.WriteBaseTypeWithDesc(MapKey, k, NeedMessageLen, cast, disallowUnknown, useFieldName); err != nil { // the gerneral way
+				return err
+			}
+			if err := p.AppendTag(2, MapValue.WireType()); err != nil {
+				return err
+			}
+			if err := p.WriteBaseTypeWithDesc(MapValue, v, NeedMessageLen, cast, disallowUnknown, useFieldName); err != nil {
+				return err
+			}
 			p.Buf = FinishSpeculativeLength(p.Buf, pos)
 		}
 	} else {
 		for k, v := range vs3 {
-			p.AppendTag(baseId, proto.BytesType)
+			if err := p.AppendTag(baseId, proto.BytesType); err != nil {
+				return err
+			}
 			var pos int
 			p.Buf, pos = AppendSpeculativeLength(p.Buf)
-			p.AppendTag(1, MapKey.WireType())
-			p.WriteBaseTypeWithDesc(MapKey, k, NeedMessageLen, cast, disallowUnknown, useFieldName) // the gerneral way
-			p.AppendTag(2, MapValue.WireType())
-			p.WriteBaseTypeWithDesc(MapValue, v, NeedMessageLen, cast, disallowUnknown, useFieldName)
+			if err := p.AppendTag(1, MapKey.WireType()); err != nil {
+				return err
+			}
+			if err := p.WriteBaseTypeWithDesc(MapKey, k, NeedMessageLen, cast, disallowUnknown, useFieldName); err != nil { // the gerneral way
+				return err
+			}
+			if err := p.AppendTag(2, MapValue.WireType()); err != nil {
+				return err
+			}
+			if err := p.WriteBaseTypeWithDesc(MapValue, v, NeedMessageLen, cast, disallowUnknown, useFieldName); err != nil {
+				return err
+			}
 			p.Buf = FinishSpeculativeLength(p.Buf, pos)
 		}
 	}
